@@ -370,6 +370,7 @@ func genCase(o genOpts) func(*rapid.T) Case {
 			allowOv := o.class == "" && !clean && rapid.IntRange(0, 19).Draw(t, "ov") == 0 // small share: visible in the Excluded counter
 			c.Lines = append(c.Lines, genLine(t, b, op, clean, allowOv || o.class == "tsp", o.class == "D1", o.class == "getid64"))
 		}
+		c.NoFinalNewline = o.class == "" && rapid.IntRange(0, 3).Draw(t, "nofinalnewline") == 0
 		if o.class == "" && rapid.IntRange(0, 2).Draw(t, "noisy") == 0 {
 			// comment and blank lines between the instructions of the program (Assembler_process_line
 			// answers "" for them: they occupy no ROM location)
@@ -516,13 +517,18 @@ func prop(c Case) pbt.Outcome {
 	if stubs {
 		return finish()
 	}
+	text := src.String()
+	if c.NoFinalNewline {
+		text = strings.TrimSuffix(text, "\n")
+		lab("program:no-final-newline")
+	}
 	prog, err := func() (p procbuilder.Program, err error) {
 		defer func() {
 			if r := recover(); r != nil {
 				err = fmt.Errorf("PANIC: %v", r)
 			}
 		}()
-		return b.m.Arch.Assembler([]byte(src.String()))
+		return b.m.Arch.Assembler([]byte(text))
 	}()
 	if err != nil && strings.HasPrefix(err.Error(), "PANIC") {
 		out.Fail = pbt.Failf("panic:program", "Arch.Assembler panics on %q: %v", src.String(), err)
@@ -534,7 +540,7 @@ func prop(c Case) pbt.Outcome {
 			return finish()
 		}
 		if len(prog.Slocs) != len(verdicts) {
-			out.Fail = pbt.Failf("program:line-count", "%q: %d words for %d lines", src.String(), len(prog.Slocs), len(verdicts))
+			out.Fail = pbt.Failf("program:line-count", "%q: %d words for %d lines", text, len(prog.Slocs), len(verdicts))
 			return finish()
 		}
 		for i, v := range verdicts {
